@@ -112,6 +112,31 @@ def correspondence(ctx):
             what = "did not return within its alarm (hang)" if any(o == "TIMEOUT" for o in out) else "aborted (sanitizer report / crash)"
             ctx.violation("decoding entry point %s on untrusted input: %s %s" % (what, ops[bad][:80], err[-600:]),
                           dict(kind="monitor", op=ops[bad][:400000], stderr=err[-3000:]))
+    # the prefetching ("long") sequence decoder, normally reached only behind a cold dictionary or > 16 MiB of history: the sanitizer build with
+    # that decoder forced decodes frames with > 64 KiB of literals and a few very long matches (split literal buffer, hand-over among the last
+    # sequences) into exact, slightly too small and far too small capacities, plus mutants of those frames and a sample of the other operations
+    lexe = frames.harness("seqlongsan")
+    lops = []
+    for i in range(120 if ctx.quick() else 2000):
+        f, x = synth.biglit_frame(rng)
+        if i % 3 == 2:
+            f = mutate(rng, f, [])
+        cap = rng.choice([len(x), len(x) - 1, len(x) - rng.randint(2, 600), len(x) - rng.randint(600, 6000), rng.randrange(0, len(x)), len(x) + 64])
+        lops.append(rng.choice(["dec %d %s", "dec %d %s", "bufless %d %s"]) % (max(0, cap), frames.hx(f)) if i % 4 else "decs %d %s %s %s" % (max(0, cap), frames.hx(f), rng.choice(["100000", "1000", "7,100000"]), rng.choice(["100000", "1000"])))
+    lops += [ops[i] for i in range(0, len(ops), 25) if ops[i].split()[0] in ("dec", "decs", "bufless")]
+    def lrun(idx):
+        rc, out, err = frames.run_lines(lexe, [lops[i] for i in idx], timeout=900)
+        return [(rc, out, err, idx)]
+    for rc, out, err, idx in frames.parallel(lrun, frames.split_chunks(list(range(len(lops))), 16)):
+        ev_long = len(out)
+        if rc != 0:
+            bad = idx[min(len(out), len(idx) - 1)]
+            ctx.violation("decoding entry point aborted (sanitizer report / crash) in the build with the prefetching sequence decoder forced: %s %s" % (lops[bad][:80], err[-600:]),
+                          dict(kind="monitor", op=lops[bad][:400000], variant="seqlongsan", stderr=err[-3000:]))
+        for i, o in zip(idx, out):
+            w = lops[i].split()
+            if o.startswith("ok") and w[0] in ("dec", "decs", "bufless") and int(o.split()[1]) > int(w[1]):
+                ctx.violation("%s (prefetching decoder) returned %s bytes for capacity %s" % (w[0], o.split()[1], w[1]), dict(kind="monitor", op=lops[i][:400000], variant="seqlongsan", result=o))
     # model comparison for one-shot decode + frame size
     mi = [i for i in range(len(ops)) if info[i][0] in ("dec", "fsize")]
     mres = dict(zip(mi, frames.parallel(lambda ch: frames.model_lines(ch), frames.split_chunks([ops[i] for i in mi], 16))))
@@ -161,7 +186,7 @@ def correspondence(ctx):
 
 
 def replay(ctx, data):
-    exe = frames.harness("san")
+    exe = frames.harness(data.get("variant") or "san")
     rc, out, err = frames.run_lines(exe, [data["op"]])
     m = frames.model_lines([data["op"]]) if data["op"].split()[0] in ("dec", "fsize") else None
     return dict(violates=rc != 0 or (m is not None and m[0] != out[0] and (out[0].startswith("ok") or m[0].startswith("ok")) and not m[0].startswith("err lax")), rc=rc, impl=out, model=m, stderr=err[-1500:])
